@@ -963,5 +963,14 @@ func (p *Parser) Parse() (Statement, error) {
 	selectStmt.Order = orderStmt
 	selectStmt.GroupBy = groupByStmt
 	err = selectStmt.ValidateFields(checkCtx)
+	if err == nil {
+		// A field's type depends on the fields it names (an alias is only an
+		// identifier until it is resolved by the checks above).
+		for i, f := range selectStmt.Fields {
+			if i < len(selectStmt.FieldTypes) {
+				selectStmt.FieldTypes[i] = f.ReturnType()
+			}
+		}
+	}
 	return selectStmt, err
 }
